@@ -55,6 +55,10 @@ def states(tier, seed):
     for p, pr, tmc in (("CC", "neutrino", 0), ("CC", "antineutrino", 1), ("NC", "electron", 0)):
         out.append({"family": "unpol", "process": p, "projectile": pr, "heavyness": "total", "scheme": "ZM-VFNS", "pto": 1, "tmc": tmc, "theory": {"MP": 2.0, "MW": 50.0, "GF": 2.5e-5}})
         out.append({"family": "unpol", "process": p, "projectile": pr, "heavyness": "charm", "scheme": "FFNS3", "pto": 0, "tmc": tmc, "theory": {"MP": 0.5, "MW": 200.0, "GF": 1e-6}})
+    # nuclear target, polarised beam, propagator correction: the combination coefficients do not depend on them
+    for p, pr, fam in (("NC", "positron", "unpol"), ("CC", "antineutrino", "unpol"), ("NC", "electron", "pol"), ("CC", "electron", "unpol")):
+        out.append({"family": fam, "process": p, "projectile": pr, "heavyness": "total", "scheme": "FFNS3", "pto": 1, "tmc": 1, "target": "iron", "obscard": {"PolarizationDIS": 0.5, "PropagatorCorrection": 0.05}})
+        out.append({"family": fam, "process": p, "projectile": pr, "heavyness": "light", "scheme": "ZM-VFNS", "pto": 1, "tmc": 0, "target": {"Z": 0.3, "A": 1.0}, "obscard": {"PolarizationDIS": -1.0}})
     # O(a_s^3) light kernels (fl11 flavour class, N3LO order keys incl. all scale-variation keys)
     for p, pr in (("NC", "positron"), ("CC", "neutrino"), ("EM", "electron")):
         st = {"family": "unpol", "process": p, "projectile": pr, "heavyness": "light", "scheme": "ZM-VFNS", "pto": 3, "tmc": 0}
